@@ -205,6 +205,10 @@ impl Prop for C02 {
                 (u.cfg.kv.is_empty() || u.key.ends_with("/L0")) && (base_form || u.cfg.style_edition == 2024)
             });
         }
+        // The atom whose block comment closes with `*/` at column 0 after star-prefixed lines is not idempotent
+        // (known finding: pass one leaves the closer at the block indent, pass two aligns it with the stars);
+        // explored in its first context under the default configuration only.
+        units.retain(|u| !u.text.contains("\u{2003}* em spaces") || (u.cfg.kv.is_empty() && u.key.contains("@fn/")));
         // import trees (C10's catalogue): single declarations at every width, ordered pairs at three widths,
         // under every granularity / grouping / reordering configuration
         let trees = super::c10::TREES;
